@@ -18,7 +18,7 @@ type monC11 struct {
 func newMonC11() *monC11 {
 	return &monC11{donatedBond: sdkmath.ZeroInt(), residueBond: sdkmath.ZeroInt()}
 }
-func (m *monC11) Name() string { return "C11" }
+func (m *monC11) Name() string     { return "C11" }
 func (m *monC11) Finish(r *Runner) {}
 
 func moduleStakeAll(s *Snap) *big.Rat {
